@@ -2,19 +2,19 @@
 From AidlV Require Export Lib.Regex Model.Sem Gen.LexTable.
 
 (* longest match over all regexes; `>=` keeps the LAST index among equally long ones *)
-Fixpoint best_match (tbl : list (re * bool)) (i : N) (s : str) (best : nat * N * bool) : nat * N * bool :=
+Fixpoint best_match (fuel : nat) (tbl : list (re * bool)) (i : N) (s : str) (best : nat * N * bool) : nat * N * bool :=
   match tbl with
   | [] => best
   | (r, skip) :: tbl' =>
-      let best' := match match_len r s with
+      let best' := match match_len_fuel fuel r s with
                    | Some n => if Nat.leb (fst (fst best)) n then (n, i, skip) else best
                    | None => best
                    end in
-      best_match tbl' (N.succ i) s best'
+      best_match fuel tbl' (N.succ i) s best'
   end.
 
-Definition any_match (tbl : list (re * bool)) (s : str) : bool :=
-  existsb (fun e => match match_len (fst e) s with Some _ => true | None => false end) tbl.
+Definition any_match (fuel : nat) (tbl : list (re * bool)) (s : str) : bool :=
+  existsb (fun e => match match_len_fuel fuel (fst e) s with Some _ => true | None => false end) tbl.
 
 Inductive lexed :=
 | LTok (start : N) (idx : N) (text : str) (stop : N) (rest : str)    (* a token, and the text after it *)
@@ -29,9 +29,9 @@ Fixpoint lex_next (tbl : list (re * bool)) (fuel : nat) (s : str) (off : N) : le
       match s with
       | [] => LEof
       | _ =>
-          if negb (any_match tbl s) then LInvalid off
+          if negb (any_match fuel tbl s) then LInvalid off
           else
-            let '(n, idx, skip) := best_match tbl 0 s (O, 0, false) in
+            let '(n, idx, skip) := best_match fuel tbl 0 s (O, 0, false) in
             let text := firstn n s in
             let rest := skipn n s in
             let stop := off + byte_len text in
